@@ -245,6 +245,8 @@ def present(values, how, rng=None):
         return list(values), None, list(values), None
     if how == "array":
         return np.array(values, dtype=np.int64), None, list(values), None
+    if how == "array_f":
+        return np.array(values, dtype=np.float64), None, list(values), None
     if how in ("dict_str", "names_str"):
         labels = [f"i{j:03d}" for j in range(n)]
         if rng is not None:
